@@ -491,6 +491,7 @@ func c17gobChildren(c *core.Ctx, n int) {
 var c17gobSeq []string
 
 var c17fileSeq int64
+var c17growLen int64 = 90
 var c17gobRoundDone bool
 
 type c17op struct {
@@ -802,6 +803,22 @@ func c17round(c *core.Ctx) {
 			} else {
 				want[g] = append(want[g], op.f()) // sequential result, computed beforehand
 			}
+		}
+	}
+	if concurrentFirst {
+		// a list longer than any list walked so far in this process: whatever the library sizes lazily by the longest list
+		// it has seen is grown for the first time by concurrent goroutines
+		n := int(atomic.AddInt64(&c17growLen, 37))
+		for g := 0; g < G; g++ {
+			plan[g][len(plan[g])-1] = c17op{"p:private-Leaf*(longest list so far)", func() string {
+				l := make([]interface{}, n)
+				for i := range l {
+					l[i] = map[string]interface{}{"id": float64(i), "-a": "x"}
+				}
+				pm := mxj.Map{"doc": map[string]interface{}{"row": l}}
+				return fmt.Sprint(len(pm.LeafNodes()), len(pm.LeafPaths(true)), len(pm.LeafValues()))
+			}}
+			plan[g][0], plan[g][len(plan[g])-1] = plan[g][len(plan[g])-1], plan[g][0]
 		}
 	}
 	if !gobRegistered && !c17gobRoundDone && concurrentFirst {
